@@ -348,7 +348,7 @@ def check_B7(ctx, facts):
            'SQLite statements address different tables: %s (created: %s)' % ({k: len(v) for k, v in tables_.items()}, create))
 
 
-def check_B8(ctx, facts, rule='C17.B8'):
+def check_B8(ctx, facts, rule='C17.B8', only_compare=False):
     """the timestamp is stored as TEXT in a form that is not order-preserving (seconds are not zero-padded), so SQL must
     never compare or order by it, and a write statement must be unconditional (storage reports Ok = the row was written)"""
     n = 0
@@ -367,6 +367,13 @@ def check_B8(ctx, facts, rule='C17.B8'):
                 name = last_seg(b.name)
                 cmp_ts = re.search(r'(\b|\.)ts\s*(<=|>=|<|>)|(<=|>=|<|>)\s*([A-Za-z_]+\.)?ts\b|ORDER\s+BY\s+([A-Za-z_]+\.)?ts\b|(MAX|MIN)\s*\(\s*([A-Za-z_]+\.)?ts\s*\)', txt, re.I)
                 cond_write = re.match(r'(INSERT|UPDATE)', txt, re.I) and re.search(r'DO\s+UPDATE\s+SET\b.*\bWHERE\b', txt, re.I)
+                if only_compare:
+                    # (C10: comparing timestamps must agree with (time, counter, node) — wherever they are compared, SQL included)
+                    ctx.ob(rule, 'sql|%s' % name, not cmp_ts, site(b),
+                           '%s does not compare / order the text form of a timestamp' % name if not cmp_ts else
+                           '%s compares / orders by the TEXT column `ts`: the text form is not order-preserving (the seconds field is not zero-padded: "99999999-.." sorts after '
+                           '"117000000-.."), so this comparison of two timestamps disagrees with comparing (time, counter, node)' % name)
+                    continue
                 good = not cmp_ts and not cond_write
                 ctx.ob(rule, 'sql|%s' % name, good, site(b),
                        '%s neither compares / orders the TEXT timestamp column nor makes the write conditional' % name if good else
